@@ -60,6 +60,12 @@ def seq_families(tier):
         "take_skip_map": [P(1, 1), {"id": 2, "kind": "map", "f": "inc", "ups": [1]}, {"id": 3, "kind": "skip", "n": 1, "ups": [2]},
                           {"id": 4, "kind": "take", "n": 1, "ups": [3]}],
     }
+    comps["combine_fromiter"] = [{"id": 1, "kind": "from_iter", "items": [1]}, P(2, 1),
+                                 {"id": 3, "kind": "combine", "ups": [1, 2]}]
+    comps["merge_fromiter"] = [{"id": 1, "kind": "from_iter", "items": [1]}, P(2, 1), {"id": 3, "kind": "merge", "ups": [1, 2]}]
+    # (not: share reached twice inside one composition, e.g. concat!(take(1)(shared), shared) -- the second
+    # subscription then attaches re-entrantly while share is still fanning out the end of the first run, which
+    # is the nested fan-out situation the properties exclude for share (finding F2); see DESIGN §14)
     for nm, nodes in comps.items():
         big = len([n for n in nodes if n["kind"] == "puppet"]) > 1
         F["compo_" + nm] = (scen.with_bounds({"nodes": nodes, "root": len(nodes)}, nodes[-1]["kind"],
